@@ -200,8 +200,8 @@ def run(ctx):
     # ---- R6: the echo controllers answer with the decoded fields
     r6 = chk.rule("R6-echo-body-is-the-decoded-fields", "in every controller `process` that decodes a query / form body (get_query, get_uri_query, FormUrlEncoded::parse), the body handed to the response (first argument of Range::get_content_range on the success path) is computed from the decoded map: the endpoint echoes what was submitted", floor=2)
     for fn0 in F.rws_fns():
-        if fn0.kind == "Promoted" or fn0.def_ in sources or fn0.def_ in thin or not re.search(r"Controller( as controller::Controller>)?::process(_request)?$", fn0.def_):
-            continue
+        if fn0.kind == "Promoted" or fn0.def_ in sources or fn0.def_ in thin or not re.search(r"Controller( as controller::Controller>)?::process(_request)?$", fn0.def_) or "::form::" not in fn0.def_:
+            continue        # the property names the form echo endpoints; other controllers that read the query are not its subject
         fn = ctx.inl(fn0)
         srcs = {t["dest"]["l"] for _, t in fn.calls() if callee_name(t) in sources}
         if not srcs:
